@@ -299,3 +299,131 @@ func runNoWaitUnderLock(c *core.Ctx, pkgs []string, floor int) {
 		c.Floor("WaitGroup.Wait sites on struct fields", n, floor)
 	}
 }
+
+// runCallArgsGuarded (C15): the expression of a CreateIterator / IteratorCost request from another node is parsed from
+// text and has not been through the query compiler, so on the serving side (tsm1, tsdb) every index into the arguments
+// of an *influxql.Call is made under an established length test of those arguments - in the function itself, or at
+// every call of it by its (unexported function's) callers.
+func runCallArgsGuarded(c *core.Ctx) {
+	isArgsOfCall := func(info *types.Info, x ast.Expr) (ast.Expr, bool) {
+		se, ok := ast.Unparen(x).(*ast.SelectorExpr)
+		if !ok || se.Sel.Name != "Args" {
+			return nil, false
+		}
+		t := info.TypeOf(se.X)
+		if t == nil || !strings.HasSuffix(t.String(), "influxql.Call") {
+			return nil, false
+		}
+		return se.X, true
+	}
+	// guard established: len(<call>.Args) compared so that the list is known non-empty
+	lenKnownPositive := func(info *types.Info, st core.State) bool {
+		for k, fct := range st {
+			if k.Root != nil || !strings.HasPrefix(k.Path, "cond:") || fct.Def == nil || fct.Bool == 0 {
+				continue
+			}
+			var atoms []atomB
+			decompose(fct.Def, fct.Bool == 1, &atoms)
+			for _, a := range atoms {
+				be, ok := ast.Unparen(a.x).(*ast.BinaryExpr)
+				if !ok {
+					continue
+				}
+				ce, ok := ast.Unparen(be.X).(*ast.CallExpr)
+				if !ok || !isLenCall(info, ce) || len(ce.Args) != 1 {
+					continue
+				}
+				if _, ok := isArgsOfCall(info, ce.Args[0]); !ok {
+					continue
+				}
+				tv := info.Types[be.Y]
+				if tv.Value == nil {
+					continue
+				}
+				v, _ := constInt(tv.Value)
+				switch {
+				case be.Op.String() == ">" && a.val && v >= 0,
+					be.Op.String() == ">=" && a.val && v >= 1,
+					be.Op.String() == "==" && !a.val && v == 0,
+					be.Op.String() == "!=" && a.val && v == 0,
+					be.Op.String() == "==" && a.val && v >= 1,
+					be.Op.String() == "<" && !a.val && v >= 1:
+					return true
+				}
+			}
+		}
+		return false
+	}
+	keepLen := func(k core.VarKey, fct core.Fact) bool {
+		return k.Root == nil && strings.HasPrefix(k.Path, "cond:") && fct.Def != nil && strings.Contains(core.ExprStr(fct.Def), ".Args")
+	}
+	// guardedAt: on every path to an event selected by at, the length is known positive
+	guardedAt := func(g *core.FuncInfo, at func(e *core.Event) bool) (bool, bool) {
+		seen, ok := false, true
+		complete := g.Flow().ExplorePaths(keepLen, func(e *core.Event, st core.State) {
+			if !at(e) {
+				return
+			}
+			seen = true
+			if !lenKnownPositive(g.Info(), st) {
+				ok = false
+			}
+		})
+		return complete && seen && ok, seen
+	}
+	n := 0
+	for _, rel := range []string{tsm1, "tsdb"} {
+		for _, g := range c.P.FuncsIn(rel) {
+			if g.Body == nil {
+				continue
+			}
+			info := g.Info()
+			var sites []*ast.IndexExpr
+			ast.Inspect(g.Body, func(nd ast.Node) bool {
+				if _, isLit := nd.(*ast.FuncLit); isLit && nd != ast.Node(g.Lit) {
+					return false
+				}
+				if ix, ok := nd.(*ast.IndexExpr); ok {
+					if _, ok := isArgsOfCall(info, ix.X); ok {
+						sites = append(sites, ix)
+					}
+				}
+				return true
+			})
+			for i, ix := range sites {
+				n++
+				site := ix
+				contains := func(e *core.Event) bool {
+					return e.Node != nil && e.Node.Pos() <= site.Pos() && site.Pos() < e.Node.End() && e.Kind != core.EvCond
+				}
+				good, seen := guardedAt(g, contains)
+				why := ""
+				if !good && seen && g.Decl != nil && !g.Decl.Name.IsExported() {
+					// every caller establishes the guard before calling g
+					callers := callersOf(c.P, g)
+					all := len(callers) > 0
+					for _, cg := range callers {
+						if cg == g.Root() {
+							continue // a recursive or closure-internal call is under the same guard as its caller
+						}
+						okc, seenc := guardedAt(cg, func(e *core.Event) bool {
+							if e.Kind != core.EvCall || e.Call == nil {
+								return false
+							}
+							fn, _ := e.Callee.(*types.Func)
+							return fn != nil && fn == g.Obj
+						})
+						if !okc || !seenc {
+							all = false
+							why = " (caller " + cg.Name + " does not establish it either)"
+						}
+					}
+					good = all
+				}
+				c.Check("call-arguments-indexed-under-length-test", fmt.Sprintf("%s/Args[...]#%d", g.Root().Name, i+1), c.P.Pos(ix.Pos()), good,
+					"the arguments of a call expression are indexed without an established length test"+why+": an expression such as count() in a request from another node panics in the connection handler's goroutine and takes the data node down")
+			}
+		}
+	}
+	c.Floor("indexes into the arguments of a call expression on the serving side", n, 2)
+}
